@@ -1,6 +1,7 @@
 package chain
 
 import (
+	"bytes"
 	"encoding/hex"
 	"fmt"
 	"math/big"
@@ -371,6 +372,12 @@ func NewGenesis(c *Config, seed uint64, world int, r *core.Rand) GenesisSpec {
 		den := new(big.Int).Mul(big.NewInt(cliffPower), big.NewInt(int64(c.RewardCliff)))
 		gov.RewardPerPower = new(big.Int).Div(new(big.Int).Lsh(big.NewInt(1), 255), den)
 	}
+	if c.BoundaryTie {
+		// as many seats as genesis validators, the per-block budget of changed power in force, no individual limit in the way
+		gov.MaxValidatorCnt, gov.MaxUpdatableStakeRatio, gov.MaxIndividualStakeRatio = int64(c.NVals), 33, 10000
+		gov.MinDelegatorStake = big.NewInt(0)
+		whale = -1
+	}
 	g.Gov = gov
 	for i := 0; i < c.NActors; i++ {
 		ga := GenActor{}
@@ -421,6 +428,8 @@ type Generator struct {
 	followUp              *Intent // to be placed right after the intent just drawn
 	govChangedPrev        int     // value of the gov.params-changed probe at the previous block
 	reopenedPrev          bool // some node was reopened from its stores at the previous block boundary
+	tieV, tieX            int  // boundary-tie script: the weakest validator and the candidate that ties with it (actor indexes, -1 before chosen)
+	tieStage              int
 }
 
 func NewGenerator(w *World) *Generator {
@@ -1168,6 +1177,12 @@ func (g *Generator) NextBlock(h int64) BlockStep {
 	if g.reopenedPrev && !bootstrapQuiet {
 		st.Txs = append(st.Txs, g.reopenProbes()...)
 	}
+	var tieSides []Side
+	if c.BoundaryTie && h >= 5 {
+		var front []Intent
+		front, tieSides = g.boundaryTie()
+		st.Txs = append(front, st.Txs...)
+	}
 	g.reopenedPrev = false
 	if bootstrapQuiet {
 		st.Evidence = nil
@@ -1217,6 +1232,7 @@ func (g *Generator) NextBlock(h int64) BlockStep {
 			}
 		}
 	}
+	st.Sides = append(st.Sides, tieSides...)
 	// faults
 	if c.PRestartL > 0 && (g.r.Chance(c.PRestartL) || (c.Property == "C10" && w.Probes.C["gov.params-changed"] > g.govChangedPrev && g.r.Chance(0.4))) {
 		st.Faults = append(st.Faults, Fault{Kind: "restart", Replica: 0, At: "end"})
@@ -1458,4 +1474,101 @@ func (g *Generator) churn() []Intent {
 	}
 	g.w.Probes.Hit("gen.churn")
 	return out
+}
+
+// boundaryTie is the script of the Config.BoundaryTie worlds. It returns txs to be placed at the front of the block
+// and mempool checks for the noisy replicas. Stage 0: somebody delegates to the weakest validator V (it owns two
+// stakes from now on). Stage 1: a rich actor X that is no delegatee stakes to itself exactly V's total power: a
+// candidate that ties with the last seated validator, with fewer stakes. From then on, in turns: a block in which a
+// noisy replica checks stake txs right after BeginBlock and whose first tx changes the power of a tied delegatee; a
+// block that restores the tie.
+func (g *Generator) boundaryTie() (front []Intent, sides []Side) {
+	w, m := g.w, g.w.M
+	const d = 3
+	other := func(not ...int) int {
+		for k := 0; k < 20; k++ {
+			i := g.richActor()
+			ok := true
+			for _, n := range not {
+				ok = ok && i != n
+			}
+			if ok {
+				return i
+			}
+		}
+		return -1
+	}
+	switch g.tieStage {
+	case 0:
+		g.tieV, g.tieX = -1, -1
+		vals := w.leader().State.Validators.Validators
+		var best *MDeleg
+		for _, v := range vals {
+			if dl := m.Delegs[ToAddr(v.Address)]; dl != nil && g.actorIdx(dl.Addr) >= 0 && (best == nil || dl.Total() < best.Total()) {
+				best = dl
+			}
+		}
+		if best == nil || len(vals) < 3 {
+			return nil, nil
+		}
+		g.tieV = g.actorIdx(best.Addr)
+		// the candidate: no delegatee yet, rich enough; preferably with an address above V's (the two rankings then disagree)
+		need := new(big.Int).Mul(big.NewInt(best.Total()+d+50), big1e18)
+		for pass := 0; pass < 2 && g.tieX < 0; pass++ {
+			for i, a := range w.Actors {
+				if m.Delegs[a.Addr] == nil && i != g.tieV && m.Balance(a.Addr).Cmp(need) > 0 && (pass == 1 || bytes.Compare(a.Addr[:], best.Addr[:]) > 0) {
+					g.tieX = i
+					break
+				}
+			}
+		}
+		from := other(g.tieX, g.tieV)
+		if g.tieX < 0 || from < 0 {
+			return nil, nil
+		}
+		g.tieStage = 1
+		w.Probes.Hit("gen.boundary-tie.setup")
+		return []Intent{{Kind: "stake", Actor: from, To: fmt.Sprintf("a%d", g.tieV), Amt: fmt.Sprintf("pow:%d", d)}}, nil
+	case 1:
+		dv := m.Delegs[w.Actors[g.tieV].Addr]
+		if dv == nil || m.Delegs[w.Actors[g.tieX].Addr] != nil {
+			g.tieStage = 0
+			return nil, nil
+		}
+		g.tieStage = 2
+		return []Intent{{Kind: "stake", Actor: g.tieX, To: fmt.Sprintf("a%d", g.tieX), Amt: fmt.Sprintf("pow:%d", dv.Total())}}, nil
+	}
+	dv, dx := m.Delegs[w.Actors[g.tieV].Addr], m.Delegs[w.Actors[g.tieX].Addr]
+	if dv == nil || dx == nil {
+		g.tieStage = 0
+		return nil, nil
+	}
+	tv, tx := dv.Total(), dx.Total()
+	from := other(g.tieX, g.tieV)
+	if from < 0 {
+		return nil, nil
+	}
+	switch {
+	case tv == tx && len(w.Reps) > 1:
+		// the tie stands: mempool checks of stake txs right after BeginBlock, then a change of a tied delegatee
+		w.Probes.Hit("gen.boundary-tie.probe")
+		for _, to := range []int{g.tieV, g.tieX}[:1+g.r.Intn(2)] {
+			if chk := other(g.tieX, g.tieV, from); chk >= 0 {
+				it := Intent{Kind: "stake", Actor: chk, To: fmt.Sprintf("a%d", to), Amt: "pow:1"}
+				sides = append(sides, Side{Replica: 1 + g.r.Intn(len(w.Reps)-1), At: []string{"bb", "bb", "tx:0"}[g.r.Intn(3)], Kind: "check", Intent: &it})
+			}
+		}
+		to := []int{g.tieV, g.tieV, g.tieX}[g.r.Intn(3)]
+		front = append(front, Intent{Kind: "stake", Actor: from, To: fmt.Sprintf("a%d", to), Amt: fmt.Sprintf("pow:%d", d)})
+		if g.r.Chance(0.7) {
+			// and a second change (the candidate overtakes the last seat) that the per-block budget admits only if the
+			// first one was booked as a change of a seated validator
+			front = append(front, Intent{Kind: "stake", Actor: from, To: fmt.Sprintf("a%d", g.tieX), Amt: fmt.Sprintf("pow:%d", d+1+g.r.Intn(3))})
+		}
+	case tv > tx && tv-tx < 1000:
+		front = append(front, Intent{Kind: "stake", Actor: from, To: fmt.Sprintf("a%d", g.tieX), Amt: fmt.Sprintf("pow:%d", tv-tx)})
+	case tx > tv && tx-tv < 1000:
+		front = append(front, Intent{Kind: "stake", Actor: from, To: fmt.Sprintf("a%d", g.tieV), Amt: fmt.Sprintf("pow:%d", tx-tv)})
+	}
+	return front, sides
 }
